@@ -25,6 +25,7 @@ var generators = map[string]genFn{
 	"spin": genSpin,
 	"slowhb": genSlowHB,
 	"healthrace": genHealthRace,
+	"acklosttakeover": genAckLostTakeover,
 }
 
 type scenOut struct {
